@@ -2083,7 +2083,10 @@ def _str(interp, args, kwargs):
         return ""
     (value,) = args
     if isinstance(value, (str, int, float)) and not isinstance(value, Abstract) or value is None:
-        return str(value)
+        try:
+            return str(value)
+        except ValueError as error:  # an int beyond the int -> str conversion limit
+            interp.raise_("builtins.ValueError", str(error))
     if isinstance(value, AText):
         return value
     return Opaque("str", True, _fragments(value))
@@ -2093,7 +2096,10 @@ def _str(interp, args, kwargs):
 def _repr(interp, args, kwargs):
     (value,) = args
     if isinstance(value, (str, int)) and not isinstance(value, Abstract) or value is None:
-        return repr(value)
+        try:
+            return repr(value)
+        except ValueError as error:  # an int beyond the int -> str conversion limit
+            interp.raise_("builtins.ValueError", str(error))
     return Opaque("str", True, _fragments(value))
 
 
